@@ -314,6 +314,9 @@ def harnesses(tier):
         for unit in (["D", "us"] if not q else (["us"] if fn in TIME_OF_DAY else ["D"])):
             if fn in TIME_OF_DAY and unit == "D": continue
             hs.append(DtExtract(fn, unit, n))
+    # a unit between day and second (what dt.new gives for "2022-10-15T12:34"): time of day and calendar parts
+    for fn in ("hour", "minute", "day"):
+        hs.append(DtExtract(fn, "m", 2))
     hs += [DtReplace("D", 3), DtReplace("us", 2 if q else 3), DtString("D", n), DtString("us", 2)]
     for fn in ("findall", "fullmatch", "match", "search", "split", "sub", "subn"):
         hs.append(Regex(fn, 2))
